@@ -187,6 +187,16 @@ def l_reset(d):
     raise KeyError(name)
 
 
+def l_term(d, LK):
+    n = d['name']
+    if n in ('reduce_any', 'reduce_all'):
+        subs = ', '.join(l_term(x, LK) for x in d['terminating_functions'])
+        return f"(.{'any' if n == 'reduce_any' else 'all'} [{subs}])"
+    if n == 'overlap':
+        return f"(.overlap {LK[d['object_type']]})"
+    return {'reach_exit': '.reachExit', 'bump_moving_obstacle': '.bumpObstacle', 'bump_into_wall': '.bumpWall'}[n]
+
+
 def generate_envs():
     """semantic description of every shipped environment the model can express: state space, reset
     function with its parameters, transition chain"""
@@ -195,9 +205,9 @@ def generate_envs():
     LC = {'NONE': '.none', 'RED': '.red', 'GREEN': '.green', 'BLUE': '.blue', 'YELLOW': '.yellow'}
     LT = {'move_agent': '.moveAgent', 'turn_agent': '.turnAgent', 'pickndrop': '.pickndrop', 'move_obstacles': '.moveObstacles',
           'actuate_door': '.actuateDoor', 'actuate_box': '.actuateBox', 'teleport': '.teleport'}
-    out = ['/- GENERATED by harness/extract_cfg.py from /repo — do not edit. -/', 'import GridVerse.Model.Reset', 'import GridVerse.Model.Spaces', 'import GridVerse.Model.Transition', 'namespace GV.Gen', '',
+    out = ['/- GENERATED by harness/extract_cfg.py from /repo — do not edit. -/', 'import GridVerse.Model.Reset', 'import GridVerse.Model.Spaces', 'import GridVerse.Model.Reward', 'namespace GV.Gen', '',
            '/-- a shipped environment: file name, declared state space, reset function with parameters, transition chain -/',
-           'structure ShippedEnv where', '  name : String', '  space : StateSpace', '  reset : ResetSpec', '  trans : List TransAtom', '',
+           'structure ShippedEnv where', '  name : String', '  space : StateSpace', '  reset : ResetSpec', '  trans : List TransAtom', '  term : TermFn', '',
            'def shippedEnvs : List ShippedEnv := [']
     rows = []
     for n, d, _ in shipped():
@@ -206,7 +216,7 @@ def generate_envs():
             kinds = '[' + ', '.join(LK[k] for k in d['state_space']['objects']) + ']'
             colors = '[' + ', '.join(LC[c] for c in d['state_space']['colors']) + ']'
             trans = '[' + ', '.join(LT[t['name']] for t in d['transition_functions']) + ']'
-            rows.append(f'  ⟨{l_str(n)}, ⟨{h}, {w}, {kinds}, {colors}⟩, {l_reset(d["reset_function"])}, {trans}⟩')
+            rows.append(f'  ⟨{l_str(n)}, ⟨{h}, {w}, {kinds}, {colors}⟩, {l_reset(d["reset_function"])}, {trans}, {l_term(d["terminating_function"], LK)}⟩')
         except KeyError:
             continue  # a custom component: outside the model
     out.append(',\n'.join(rows))
